@@ -670,6 +670,18 @@ func (x *Exec) callBySlot(st *State, fr *Frame, sc *FuncContract, slot string, s
 		}
 		x.oblige(st, tag, label, props, x.evalBool(env, r.Expr), where, r.Src)
 	}
+	// call-site assertions of the caller's contract (At: "slot:<name>")
+	if x.fc != nil && fr.Fn == x.fn {
+		for _, a := range x.fc.Asserts {
+			if a.At == "slot."+slot {
+				cenv := x.envFor(st, x.entry, fr)
+				for k, v := range env.vars {
+					cenv.vars["$"+k] = v
+				}
+				x.oblige(st, "assert@slot:"+slot, a.Label, a.Props, x.evalBool(cenv, a.Expr), where, a.Src)
+			}
+		}
+	}
 	old := st.snapshot()
 	x.nextBefore = x.nextTerm(st)
 	x.bumpNext(st)
